@@ -4,6 +4,7 @@
 #include <cstdio>
 #include <cstring>
 #include <memory>
+#include <sys/mman.h>
 #include <string>
 #include <vector>
 #include "case.h"
@@ -566,7 +567,8 @@ template <class K> struct World {
                 }
                 std::vector<double> be; if (o.refine != NOREFINE) for (int j = 0; j < a.nrhs; j++) be.push_back((double)a.berr[j]);
                 long double mr = 0;
-                if (overflow_plausible<K>(Xh, Bh, std::vector<cx>())) r.overflow_skipped = true;
+                bool xbad = false; for (auto &v : Xh) if (!std::isfinite((double)v.real()) || !std::isfinite((double)v.imag())) xbad = true;
+                if (overflow_plausible<K>(Xh, Bh, std::vector<cx>()) || (xbad && solve_may_overflow<K>(n, Ld, Ud, s.perm_r, s.perm_c, trant, Bh, a.nrhs))) r.overflow_skipped = true;
                 else {
                     std::string e = check_residual<K>(Ad, n, Ld, Ud, s.perm_r, s.perm_c, trant, Xh, Bh, a.nrhs, be.empty() ? nullptr : be.data(), &mr);
                     r.resid_ratio = mr;
@@ -782,7 +784,18 @@ template <class K> struct World {
             for (int k = 0; k < M.nnz(); k++) vals[k] = ScalarOps<S>::make(M.re[k], M.im[k]);
             h.values = vals;
             std::vector<S> v0(vals, vals + M.nnz()); std::vector<int_t> r0 = h.rowind1, c0 = h.colptr1;
-            a.iopt = 1; a.n = M.n; a.nnz = M.nnz(); a.nrhs = 0; a.values = vals; a.rowind = h.rowind1.data(); a.colptr = h.colptr1.data(); a.b = nullptr; a.ldb = M.n;
+            // The caller's arrays are handed over READ-ONLY for the duration of the factor request (a Fortran caller may pass
+            // constants, or other threads may be reading the same arrays): any write - even one that is undone before return - faults.
+            size_t pg = 4096, lv = (sizeof(S) * std::max(1, M.nnz()) + pg - 1) / pg * pg, lr = (sizeof(int_t) * std::max(1, M.nnz()) + pg - 1) / pg * pg, lc = (sizeof(int_t) * (M.n + 1) + pg - 1) / pg * pg;
+            char *ro = (char *)mmap(nullptr, lv + lr + lc, PROT_READ | PROT_WRITE, MAP_PRIVATE | MAP_ANONYMOUS, -1, 0);
+            bool use_ro = (ro != MAP_FAILED);
+            S *ro_v = vals; int_t *ro_r = h.rowind1.data(), *ro_c = h.colptr1.data();
+            if (use_ro) {
+                ro_v = (S *)ro; ro_r = (int_t *)(ro + lv); ro_c = (int_t *)(ro + lv + lr);
+                memcpy(ro_v, vals, sizeof(S) * M.nnz()); memcpy(ro_r, h.rowind1.data(), sizeof(int_t) * M.nnz()); memcpy(ro_c, h.colptr1.data(), sizeof(int_t) * (M.n + 1));
+                mprotect(ro, lv + lr + lc, PROT_READ);
+            }
+            a.iopt = 1; a.n = M.n; a.nnz = M.nnz(); a.nrhs = 0; a.values = ro_v; a.rowind = ro_r; a.colptr = ro_c; a.b = nullptr; a.ldb = M.n;
             h.f = 0;
             rt_op_begin(ctx, (int)trace.size() - 1, o.faults);
             int esc = guarded(body_bridge, &a);
@@ -791,6 +804,11 @@ template <class K> struct World {
             if (esc) { r.cls = esc == ESC_ABORT ? XC_ABORT : XC_HANG; dead = true; viol(r, esc == ESC_ABORT ? "abort" : "hang", ctx->abort_msg); return; }
             r.info = (long)a.info; r.cls = classify(r.info, M.n, false, false);
             h.live = true; h.valid = (r.info == 0); // a Fortran caller checks info before it solves with the handle
+            if (use_ro) {
+                if (!esc && (memcmp(v0.data(), ro_v, sizeof(S) * M.nnz()) != 0 || memcmp(r0.data(), ro_r, sizeof(int_t) * M.nnz()) != 0 || memcmp(c0.data(), ro_c, sizeof(int_t) * (M.n + 1)) != 0))
+                    viol(r, "bridge-mutates", "factor request changed the caller's 1-based matrix arrays");
+                munmap(ro, lv + lr + lc);
+            }
             if (memcmp(v0.data(), vals, sizeof(S) * M.nnz()) != 0 || r0 != h.rowind1 || c0 != h.colptr1) viol(r, "bridge-mutates", "factor request changed the caller's 1-based matrix arrays");
             if (h.f == 0) viol(r, "bridge-handle", "factor request returned a null handle");
             if (cfg.capture) { r.snap.val("info", r.info); }
